@@ -94,7 +94,7 @@ def one_instance(ctx, r, big=0, prepared=None, legacy=False, only=None, tail=Non
 
 
 def run(ctx):
-    framework.check_facts(ctx, ctx.facts, ["with_lock", "lock_sites", "writer_calls"])
+    framework.check_facts(ctx, ctx.facts, ["with_lock", "lock_sites", "writer_calls", "open_sites"])
     r = gen.Rng(ctx.seed * 1000003 + 4)
     for i in range(22 if ctx.quick else 300):
         one_instance(ctx, r.fork(), big=(130 if i % 7 == 3 else 0))
